@@ -190,7 +190,7 @@ func c04Check(t *fw.T, prog *gen.JSProg, st gen.JSStyle, op js.Options) bool {
 	return true
 }
 
-var c04Opts = gen.JSOpts{NoRegex: true, PlainKeys: true, NoClassSelf: true, NoModuleItems: true}
+var c04Opts = gen.JSOpts{NoRegex: true, PlainKeys: true, NoClassSelf: true, NoModuleItems: true, ParamDefaultRefs: true}
 
 func c04Run(t *fw.T) {
 	r := t.Rng
@@ -201,7 +201,7 @@ func c04Run(t *fw.T) {
 		o.MaxStmts = 1 + r.Intn(3)
 	}
 	prog := gen.JSProgram(r, o)
-	st := gen.JSStyle{Parens: r.Intn(3), Semi: r.Intn(3), WS: r.Intn(3), Seed: r.Int63()}
+	st := gen.JSStyle{Parens: r.Intn(3), Semi: r.Intn(3), WS: r.Intn(3), Seed: r.Int63(), Bang: []int{0, 0, 0, 25}[r.Intn(4)]}
 	op := jsOptions[r.Intn(2)]
 	if !c04Check(t, prog, st, op) {
 		return
@@ -233,6 +233,12 @@ var c04Probes = []struct {
 	{"for-head-use-vs-body-let", "for (c of x) { x; let x }"},
 	{"arrow-flag-leak-into-nested-body", "({} + function(){ [a] }); a"},
 	{"static-block-var", "let a; class b { static { var a; a } }"},
+	{"rest-param-default-vs-body-function", "function f(c = y, ...r) { function y() {} }"},
+	{"param-default-vs-body-var", "function f(c = y) { var y; (y) }"},
+	{"arrow-param-default-vs-body-let", "x = (c = y, [d]) => { let y; return [y] }"},
+	{"for-head-use-then-body-let", "var n; for (let i = 0; i < n; i++) { let n = i; (n) }"},
+	{"param-default-use-vs-body-let", "function f(a = x) { x; let x }"},
+	{"param-default-use-vs-body-var", "function f(a = x) { x = 1; var x }"},
 }
 
 func c04Probe(t *fw.T) {
@@ -267,6 +273,12 @@ func c04Probe(t *fw.T) {
 		"for-head-use-vs-body-let":          "for (c of x) { v1_; let v1_; }",
 		"arrow-flag-leak-into-nested-body":  "({} + function() { [a]; }); a;",
 		"static-block-var":                  "let v1_; class v2_ { static { var v3_; v3_; } }",
+		"rest-param-default-vs-body-function": "function v1_(v2_ = y, ...v3_) { function v4_() {} }",
+		"param-default-vs-body-var":           "function v1_(v2_ = y) { var v3_; (v3_) }",
+		"arrow-param-default-vs-body-let":     "x = (v1_ = y, [v2_]) => { let v3_; return [v3_] }",
+		"for-head-use-then-body-let":          "var v1_; for (let v2_ = 0; v2_ < v1_; v2_++) { let v3_ = v2_; (v3_) }",
+		"param-default-use-vs-body-let":       "function v1_(v2_ = x) { v3_; let v3_ }",
+		"param-default-use-vs-body-var":       "function v1_(v2_ = x) { v3_ = 1; var v3_ }",
 	}[p.name]
 	if canonNames(normalizeWS(got)) != canonNames(normalizeWS(want)) {
 		t.Failf("after renaming every declared variable the program prints as %q, want %q", got, want)
